@@ -1,7 +1,7 @@
 (* Dispatch: the single entry point [run : sx -> sx] of the executable model. *)
 From Coq Require Import List ZArith NArith Bool.
 From Coq Require Import QArith.
-From SV Require Import Sx Str Omap Beat Props Notes Group Msd Simfile Engine TimingSrc Convert Generated.Tables.
+From SV Require Import Sx Str Omap Beat Props Notes Group Msd Simfile Engine TimingSrc Convert Mutate MutateRun Generated.Tables.
 Open Scope Z_scope.
 Import ListNotations.
 Open Scope Z_scope.
@@ -175,11 +175,31 @@ Definition run_convert (cmd : Z) (args : list sx) : sx :=
   | _, _ => bad_request
   end.
 
+Definition run_mutate (cmd : Z) (args : list sx) : sx :=
+  match cmd, args with
+  | 50, [st; inp; outp; bak; nenc; files; dt; body; bad; fault] =>
+      do st' <- un_bool st; do inp' <- un_str inp; do outp' <- un_opt un_str outp; do bak' <- un_opt un_str bak;
+      do nenc' <- un_nat nenc; do files' <- un_list (un_pair un_str un_content) files;
+      do dt' <- un_list (un_pair un_Z (un_list (un_opt un_str))) dt; do body' <- un_body body;
+      do bad' <- un_list un_N bad; do fault' <- un_opt (un_pair un_Z un_str) fault;
+      let cfg := {| c_input := inp'; c_output := outp'; c_backup := bak'; c_encs := seq 0 nenc' |} in
+      let '(f', e) := MutateRun.run st' dt' bad' cfg files' body' fault' in
+      (* also report what was detected and loaded (open_with_detected_encoding) *)
+      let det := open_detect simfile str content nat str_eqb (decodes dt') (load_ st') (seq 0 nenc') files' inp' in
+      ok (L [sx_list (sx_pair sx_str sx_content) f'; sx_exn e;
+             match det with
+             | Done (s, en) => L [A 0; sx_nat en; sx_simfile s]
+             | Raised x => L [A 1; sx_exn (Some x)]
+             end])
+  | _, _ => bad_request
+  end.
+
 Definition dispatch_request (req : sx) : sx :=
   match req with
   | L (A cmd :: args) =>
       if (140 <=? cmd) && (cmd <? 150) then run_beat cmd args
       else if (10 <=? cmd) && (cmd <? 40) then run_msd cmd args
+      else if (50 <=? cmd) && (cmd <? 60) then run_mutate cmd args
       else if (70 <=? cmd) && (cmd <? 90) then run_notes cmd args
       else if (90 <=? cmd) && (cmd <? 100) then run_group cmd args
       else if (110 <=? cmd) && (cmd <? 120) then run_engine cmd args
